@@ -37,9 +37,10 @@ def model_of(obs):
     enz = type(vec).cutter
     if not supported_cutter(enz):
         return {"ok": False, "why": "unsupported-enzyme"}
-    if any(type(m).cutter is not enz for m in mods):
-        return {"ok": False, "why": "mixed-cutters"}
     geom = refmodel.geometry(enz)
+    # isoschizomers with the same cut (BbsI/BpiI, BsmBI/Esp3I, BsaI/Eco31I ...) are the same enzyme for the string model
+    if any(not supported_cutter(type(m).cutter) or refmodel.geometry(type(m).cutter) != geom for m in mods):
+        return {"ok": False, "why": "mixed-cutters"}
     texts = [str(vec.record.seq)] + [str(m.record.seq) for m in mods]
     if any(set(t.upper()) - set("ACGT") or not t for t in texts):
         return {"ok": False, "why": "non-ACGT"}
@@ -160,7 +161,7 @@ def make_c01_judge(strict_classes=()):
         k = m["geom"][2]
         ctx.hist("c01_geometry", "site%d/n%d/k%d" % (len(m["geom"][0]), m["geom"][1], k))
         ctx.hist("c01_chain_length", len(obs.mods))
-        strict = all(type(e) in strict_classes for e in [obs.vec] + obs.mods)
+        strict = all(type(e) in strict_classes for e in [obs.vec] + obs.mods) or bool((obs.tag or {}).get("strict"))
         w = witness(obs)
         if obs.error is not None:
             if strict:
